@@ -29,7 +29,8 @@ from koda_validate.errors import ValidationErrBase
 
 
 def _sized(x: Any) -> Optional[int]:
-    if isinstance(x, (str, bytes, list, tuple, set, dict)):
+    # NamedTuple instances are modelled as objects (VObj), not as sized values
+    if isinstance(x, (str, bytes, list, tuple, set, dict)) and not hasattr(x, "_fields"):
         return len(x)
     return None
 
@@ -76,7 +77,9 @@ class UserPredAsync(PredicateAsync[Any]):
 
     async def validate_async(self, val: Any) -> bool:
         ASYNC_CHECKS["n"] += 1
-        await asyncio.sleep(0)
+        # id-dependent latency: a later-declared check may well finish first
+        for _ in range((7 - 2 * self.id) % 5):
+            await asyncio.sleep(0)
         return UPRED[self.id](val)
 
 
